@@ -59,6 +59,313 @@ def eventV2_eventV2_Redact : List String := [
   "*e = res"
 ]
 
+def eventcrypto__VerifyAllEventSignatures : List String := [
+  "func func(ctx context.Context, events []PDU, verifier JSONVerifier, userIDForSender spec.UserIDForSender) []error",
+  "errors := make([]error, 0, len(events))",
+  "for _, e := range events {",
+  "errors = append(errors, VerifyEventSignatures(ctx, e, verifier, userIDForSender))",
+  "}",
+  "return errors"
+]
+
+def eventcrypto__VerifyEventSignatures : List String := [
+  "func func(ctx context.Context, e PDU, verifier JSONVerifier, userIDForSender spec.UserIDForSender) error",
+  "if userIDForSender == nil {",
+  "panic(\"UserIDForSender func is nil\")",
+  "}",
+  "var serverName spec.ServerName",
+  "needed := map[spec.ServerName]struct{}{}",
+  "verImpl, err := GetRoomVersion(e.Version())",
+  "if err != nil {",
+  "return err",
+  "}",
+  "switch e.Version() {",
+  "case RoomVersionPseudoIDs:",
+  "needed[spec.ServerName(e.SenderID())] = struct{}{}",
+  "default:",
+  "sender, err := userIDForSender(e.RoomID(), e.SenderID())",
+  "if err != nil {",
+  "return fmt.Errorf(\"invalid sender userID: %w\", err)",
+  "}",
+  "if sender != nil {",
+  "serverName = sender.Domain()",
+  "needed[serverName] = struct{}{}",
+  "}",
+  "format := verImpl.EventIDFormat()",
+  "if format == EventIDFormatV1 {",
+  "_, serverName, err = SplitID('$', e.EventID())",
+  "if err != nil {",
+  "return fmt.Errorf(\"failed to split event ID: %w\", err)",
+  "}",
+  "needed[serverName] = struct{}{}",
+  "}",
+  "}",
+  "if e.Type() == spec.MRoomMember {",
+  "membership, err := e.Membership()",
+  "if err != nil {",
+  "return fmt.Errorf(\"failed to get membership of membership event: %w\", err)",
+  "}",
+  "if verImpl.Version() == RoomVersionPseudoIDs && membership == spec.Join {",
+  "mapping, err := getMXIDMapping(e)",
+  "if err != nil {",
+  "return err",
+  "}",
+  "err = validateMXIDMappingSignatures(ctx, e, *mapping, verifier, verImpl)",
+  "if err != nil {",
+  "return err",
+  "}",
+  "}",
+  "if membership == spec.Invite {",
+  "switch e.Version() {",
+  "case RoomVersionPseudoIDs:",
+  "needed[spec.ServerName(*e.StateKey())] = struct{}{}",
+  "default:",
+  "_, serverName, err = SplitID('@', *e.StateKey())",
+  "if err != nil {",
+  "return fmt.Errorf(\"failed to split state key: %w\", err)",
+  "}",
+  "needed[serverName] = struct{}{}",
+  "}",
+  "}",
+  "if membership == spec.Join {",
+  "auth, err := verImpl.RestrictedJoinServername(e.Content())",
+  "if err != nil {",
+  "return err",
+  "}",
+  "if auth != \"\" {",
+  "needed[auth] = struct{}{}",
+  "}",
+  "}",
+  "}",
+  "redactedJSON, err := verImpl.RedactEventJSON(e.JSON())",
+  "if err != nil {",
+  "return fmt.Errorf(\"failed to redact event: %w\", err)",
+  "}",
+  "var toVerify []VerifyJSONRequest",
+  "for serverName := range needed {",
+  "v := VerifyJSONRequest{Message: redactedJSON, AtTS: e.OriginServerTS(), ServerName: serverName, ValidityCheckingFunc: verImpl.SignatureValidityCheck}",
+  "toVerify = append(toVerify, v)",
+  "}",
+  "if verImpl.Version() == RoomVersionPseudoIDs {",
+  "verifier = JSONVerifierSelf{}",
+  "}",
+  "results, err := verifier.VerifyJSONs(ctx, toVerify)",
+  "if err != nil {",
+  "return fmt.Errorf(\"failed to verify JSONs: %w\", err)",
+  "}",
+  "for _, result := range results {",
+  "if result.Error != nil {",
+  "return result.Error",
+  "}",
+  "}",
+  "return nil"
+]
+
+def eventcrypto__addContentHashesToEvent : List String := [
+  "func func(eventJSON []byte) ([]byte, error)",
+  "var event map[string]spec.RawJSON",
+  "if err := json.Unmarshal(eventJSON, &event); err != nil {",
+  "return nil, err",
+  "}",
+  "unsignedJSON := event[\"unsigned\"]",
+  "signatures := event[\"signatures\"]",
+  "delete(event, \"signatures\")",
+  "delete(event, \"unsigned\")",
+  "delete(event, \"hashes\")",
+  "hashableEventJSON, err := json.Marshal(event)",
+  "if err != nil {",
+  "return nil, err",
+  "}",
+  "hashableEventJSON, err = CanonicalJSON(hashableEventJSON)",
+  "if err != nil {",
+  "return nil, err",
+  "}",
+  "sha256Hash := sha256.Sum256(hashableEventJSON)",
+  "hashes := struct { Sha256 spec.Base64Bytes `json:\"sha256\"` }{spec.Base64Bytes(sha256Hash[:])}",
+  "hashesJSON, err := json.Marshal(&hashes)",
+  "if err != nil {",
+  "return nil, err",
+  "}",
+  "if len(unsignedJSON) > 0 {",
+  "event[\"unsigned\"] = unsignedJSON",
+  "}",
+  "if len(signatures) > 0 {",
+  "event[\"signatures\"] = signatures",
+  "}",
+  "event[\"hashes\"] = spec.RawJSON(hashesJSON)",
+  "return json.Marshal(event)"
+]
+
+def eventcrypto__checkEventContentHash : List String := [
+  "func func(eventJSON []byte) error",
+  "var err error",
+  "result := gjson.GetBytes(eventJSON, \"hashes.sha256\")",
+  "var hash spec.Base64Bytes",
+  "if err = hash.Decode(result.Str); err != nil {",
+  "return err",
+  "}",
+  "hashableEventJSON := eventJSON",
+  "for _, key := range []string{\"signatures\", \"unsigned\", \"hashes\"} {",
+  "if hashableEventJSON, err = sjson.DeleteBytes(hashableEventJSON, key); err != nil {",
+  "return err",
+  "}",
+  "}",
+  "sha256Hash := sha256.Sum256(hashableEventJSON)",
+  "if !bytes.Equal(sha256Hash[:], []byte(hash)) {",
+  "return fmt.Errorf(\"Invalid Sha256 content hash: %v != %v\", sha256Hash[:], []byte(hash))",
+  "}",
+  "return nil"
+]
+
+def eventcrypto__emptyAuthorisedViaServerName : List String := [
+  "func func([]byte) (spec.ServerName, error)",
+  "return \"\", nil"
+]
+
+def eventcrypto__extractAuthorisedViaServerName : List String := [
+  "func func(content []byte) (spec.ServerName, error)",
+  "if v := gjson.GetBytes(content, \"join_authorised_via_users_server\"); v.Exists() {",
+  "_, serverName, err := SplitID('@', v.String())",
+  "if err != nil {",
+  "return \"\", fmt.Errorf(\"failed to split authorised server: %w\", err)",
+  "}",
+  "if serverName == \"\" {",
+  "return \"\", fmt.Errorf(\"authorised user %q has no server name\", v.String())",
+  "}",
+  "return serverName, nil",
+  "}",
+  "return \"\", nil"
+]
+
+def eventcrypto__getMXIDMapping : List String := [
+  "func func(e PDU) (*MXIDMapping, error)",
+  "var content MemberContent",
+  "err := json.Unmarshal(e.Content(), &content)",
+  "if err != nil {",
+  "return nil, err",
+  "}",
+  "if content.MXIDMapping == nil {",
+  "return nil, fmt.Errorf(\"missing mxid_mapping\")",
+  "}",
+  "return content.MXIDMapping, nil"
+]
+
+def eventcrypto__referenceOfEvent : List String := [
+  "func func(eventJSON []byte, roomVersion RoomVersion) (eventReference, error)",
+  "verImpl, err := GetRoomVersion(roomVersion)",
+  "if err != nil {",
+  "return eventReference{}, err",
+  "}",
+  "return referenceOfEventForVersion(eventJSON, verImpl)"
+]
+
+def eventcrypto__referenceOfEventForVersion : List String := [
+  "func func(eventJSON []byte, verImpl IRoomVersion) (eventReference, error)",
+  "redactedJSON, err := verImpl.RedactEventJSON(eventJSON)",
+  "if err != nil {",
+  "return eventReference{}, err",
+  "}",
+  "var event map[string]spec.RawJSON",
+  "if err = json.Unmarshal(redactedJSON, &event); err != nil {",
+  "return eventReference{}, err",
+  "}",
+  "delete(event, \"signatures\")",
+  "delete(event, \"unsigned\")",
+  "hashableEventJSON, err := json.Marshal(event)",
+  "if err != nil {",
+  "return eventReference{}, err",
+  "}",
+  "hashableEventJSON, err = CanonicalJSON(hashableEventJSON)",
+  "if err != nil {",
+  "return eventReference{}, err",
+  "}",
+  "sha256Hash := sha256.Sum256(hashableEventJSON)",
+  "var eventID string",
+  "eventFormat := verImpl.EventFormat()",
+  "eventIDFormat := verImpl.EventIDFormat()",
+  "switch eventFormat {",
+  "case EventFormatV1:",
+  "if err = json.Unmarshal(event[\"event_id\"], &eventID); err != nil {",
+  "return eventReference{}, err",
+  "}",
+  "case EventFormatV2:",
+  "var encoder *base64.Encoding",
+  "switch eventIDFormat {",
+  "case EventIDFormatV2:",
+  "encoder = base64.RawStdEncoding.WithPadding(base64.NoPadding)",
+  "case EventIDFormatV3:",
+  "encoder = base64.RawURLEncoding.WithPadding(base64.NoPadding)",
+  "default:",
+  "return eventReference{}, UnsupportedRoomVersionError{Version: verImpl.Version()}",
+  "}",
+  "eventID = fmt.Sprintf(\"$%s\", encoder.EncodeToString(sha256Hash[:]))",
+  "default:",
+  "return eventReference{}, UnsupportedRoomVersionError{Version: verImpl.Version()}",
+  "}",
+  "return eventReference{eventID, sha256Hash[:]}, nil"
+]
+
+def eventcrypto__signEvent : List String := [
+  "func func(signingName string, keyID KeyID, privateKey ed25519.PrivateKey, eventJSON []byte, roomVersion RoomVersion) ([]byte, error)",
+  "verImpl, err := GetRoomVersion(roomVersion)",
+  "if err != nil {",
+  "return nil, err",
+  "}",
+  "redactedJSON, err := verImpl.RedactEventJSON(eventJSON)",
+  "if err != nil {",
+  "return nil, err",
+  "}",
+  "signedJSON, err := SignJSON(signingName, keyID, privateKey, redactedJSON)",
+  "if err != nil {",
+  "return nil, err",
+  "}",
+  "var signedEvent struct { Signatures spec.RawJSON `json:\"signatures\"` }",
+  "if err := json.Unmarshal(signedJSON, &signedEvent); err != nil {",
+  "return nil, err",
+  "}",
+  "var event map[string]spec.RawJSON",
+  "if err := json.Unmarshal(eventJSON, &event); err != nil {",
+  "return nil, err",
+  "}",
+  "event[\"signatures\"] = signedEvent.Signatures",
+  "return json.Marshal(event)"
+]
+
+def eventcrypto__validateMXIDMappingSignatures : List String := [
+  "func func(ctx context.Context, e PDU, mapping MXIDMapping, verifier JSONVerifier, verImpl IRoomVersion) error",
+  "mappingBytes, err := json.Marshal(mapping)",
+  "if err != nil {",
+  "return err",
+  "}",
+  "_, userServer, err := SplitID('@', mapping.UserID)",
+  "if err != nil {",
+  "return fmt.Errorf(\"failed to verify MXIDMapping: %w\", err)",
+  "}",
+  "if _, ok := mapping.Signatures[userServer]; !ok {",
+  "return fmt.Errorf(\"failed to verify MXIDMapping: not signed by %q\", userServer)",
+  "}",
+  "var toVerify []VerifyJSONRequest",
+  "for s := range mapping.Signatures {",
+  "v := VerifyJSONRequest{Message: mappingBytes, AtTS: e.OriginServerTS(), ServerName: s, ValidityCheckingFunc: verImpl.SignatureValidityCheck}",
+  "toVerify = append(toVerify, v)",
+  "}",
+  "results, err := verifier.VerifyJSONs(ctx, toVerify)",
+  "if err != nil {",
+  "return fmt.Errorf(\"failed to verify MXIDMapping: %w\", err)",
+  "}",
+  "for _, result := range results {",
+  "if result.Error != nil {",
+  "return fmt.Errorf(\"failed to verify MXIDMapping: %w\", result.Error)",
+  "}",
+  "}",
+  "return err"
+]
+
+def eventversion_RoomVersionImpl_RedactEventJSON : List String := [
+  "func func(eventJSON []byte) ([]byte, error)",
+  "return v.redactionAlgorithm(eventJSON)"
+]
+
 def redactevent__redactEventJSON : List String := [
   "func func[T unredactableEvent](eventJSON []byte, unredactableEvent T, eventTypeToKeepContentFields map[string][]string) ([]byte, error)",
   "if err := json.Unmarshal(eventJSON, unredactableEvent); err != nil {",
@@ -135,6 +442,6 @@ def redactevent_unredactableEventFieldsV2_SetContent : List String := [
   "u.Content = content"
 ]
 
-def functions : List String := ["eventV1.go:eventV1.Redact", "eventV2.go:eventV2.Redact", "redactevent.go:.redactEventJSON", "redactevent.go:.redactEventJSONV1", "redactevent.go:.redactEventJSONV2", "redactevent.go:.redactEventJSONV3", "redactevent.go:.redactEventJSONV4", "redactevent.go:.redactEventJSONV5", "redactevent.go:unredactableEventFieldsV1.GetContent", "redactevent.go:unredactableEventFieldsV1.GetType", "redactevent.go:unredactableEventFieldsV1.SetContent", "redactevent.go:unredactableEventFieldsV2.GetContent", "redactevent.go:unredactableEventFieldsV2.GetType", "redactevent.go:unredactableEventFieldsV2.SetContent"]
+def functions : List String := ["eventV1.go:eventV1.Redact", "eventV2.go:eventV2.Redact", "eventcrypto.go:.VerifyAllEventSignatures", "eventcrypto.go:.VerifyEventSignatures", "eventcrypto.go:.addContentHashesToEvent", "eventcrypto.go:.checkEventContentHash", "eventcrypto.go:.emptyAuthorisedViaServerName", "eventcrypto.go:.extractAuthorisedViaServerName", "eventcrypto.go:.getMXIDMapping", "eventcrypto.go:.referenceOfEvent", "eventcrypto.go:.referenceOfEventForVersion", "eventcrypto.go:.signEvent", "eventcrypto.go:.validateMXIDMappingSignatures", "eventversion.go:RoomVersionImpl.RedactEventJSON", "redactevent.go:.redactEventJSON", "redactevent.go:.redactEventJSONV1", "redactevent.go:.redactEventJSONV2", "redactevent.go:.redactEventJSONV3", "redactevent.go:.redactEventJSONV4", "redactevent.go:.redactEventJSONV5", "redactevent.go:unredactableEventFieldsV1.GetContent", "redactevent.go:unredactableEventFieldsV1.GetType", "redactevent.go:unredactableEventFieldsV1.SetContent", "redactevent.go:unredactableEventFieldsV2.GetContent", "redactevent.go:unredactableEventFieldsV2.GetType", "redactevent.go:unredactableEventFieldsV2.SetContent"]
 
 end VPins.C05
